@@ -1,5 +1,6 @@
 """System generators (DESIGN 3.1).  Everything is built through the public setters of the
 code under test, so it sees exactly what a user would give it."""
+import os
 import numpy as np
 from . import env
 
@@ -195,6 +196,38 @@ def copy_system(s, mats=None, centers_red=None):
         centers_red = s.wannier_centers_red
     s2 = make_system(s.real_lattice, s.rvec.iRvec, mats, centers_red, periodic=tuple(s.periodic), spinor=s.spinor)
     return s2
+
+
+HISTORIES = ("as_built", "rvec_copy", "ws_dist", "npz_roundtrip", "ws_dist+rvec_copy")
+
+
+def history_variant(rng, system, which=None, workdir=None):
+    """Bring a system into a state that a user reaches through the public API before the operation under test: internal flags and
+    caches of System_R / Rvectors depend on that history (explicit right shifts after copy()/exclude_zeros()/do_ws_dist(), cached
+    reduced centres, objects rebuilt from disk).  'ws_dist' changes the model (R-vectors are folded on the chosen mesh), so it has to
+    be applied before the reference observation.  Returns (system, tag); the system may be a new object."""
+    import tempfile
+    import shutil
+    from . import env
+    which = which or HISTORIES[int(rng.integers(len(HISTORIES)))]
+    if which == "as_built":
+        return system, which
+    if which.startswith("ws_dist"):
+        mp = [int(x) if p else 1 for x, p in zip(rng.integers(3, 6, size=3), system.periodic)]
+        with env.quiet():
+            system.do_ws_dist(tuple(mp))
+    if which.endswith("rvec_copy"):
+        system.rvec = system.rvec.copy()
+    if which == "npz_roundtrip":
+        from wannierberri.system.system_R import System_R
+        d = tempfile.mkdtemp(prefix="hist", dir=workdir)
+        try:
+            with env.quiet():
+                system.to_npz(os.path.join(d, "s"))
+                system = System_R.from_npz(os.path.join(d, "s"))
+        finally:
+            shutil.rmtree(d, ignore_errors=True)
+    return system, which
 
 
 def bands(system, kpoints_red):
